@@ -65,29 +65,44 @@ theorem C06_bad_continuation_4_08 (T : Nat) (st : RState) (i : In) (b : Blk)
   rw [step_incomplete ha hf2]
   exact ⟨rfl, rfl, hf.2, rfl⟩
 
-/-- **C06 (4.00).** A continuation with the more flag whose payload length contradicts its block
-size, arriving for an existing assembly, is answered 4.00 Bad Request (the size is checked before
-the offset); the handler is not invoked and no assembly is altered. -/
+/-- **C06 (4.00).** A continuation whose payload length contradicts its block size, arriving for an
+existing assembly, is answered 4.00 Bad Request (the size is checked before the offset); the handler
+is not invoked and no assembly is altered.  The length contradicts the size when
+* the block has the more flag and is not exactly one block long (BERT, exponent 7: not a multiple
+  of 1024), or
+* the block is the final one, its exponent is below 7 and it is *longer* than one block. -/
 theorem C06_size_contradiction_4_00 (T : Nat) (st : RState) (i : In) (b : Blk) (asm : Msg)
     (ha : i.assemble = true) (hb : i.req.block1 = some b) (h0 : b.num ≠ 0)
     (hl : alookup (blockKey i.req) (spoolAt T st i).items = some asm)
     (hc : isRequestCode asm.code = true)
-    (hsize : b.more = true ∧ i.req.payload.length ≠ b.size ∧
-             ¬ (b.szx = 7 ∧ i.req.payload.length % b.size = 0)) :
+    (hsize : (b.more = true ∧ i.req.payload.length ≠ b.size ∧
+                ¬ (b.szx = 7 ∧ i.req.payload.length % b.size = 0)) ∨
+             (b.more = false ∧ b.szx ≠ 7 ∧ b.size < i.req.payload.length)) :
     (step T st i).2.resp = errResp BAD_REQUEST none ∧ (step T st i).2.seen = none ∧
     (step T st i).1.spool.items = (spoolAt T st i).items ∧
     (step T st i).1.cache = cacheAt T st i := by
   have hs : sizeOk b i.req.payload.length = false := by
-    obtain ⟨h1, h2, h3⟩ := hsize
-    simp only [sizeOk, h1, Bool.not_true, Bool.false_or, Bool.or_eq_false_iff, beq_eq_false_iff_ne,
-      ne_eq, Bool.and_eq_false_imp, beq_iff_eq]
-    exact ⟨h2, fun h7 h => h3 ⟨h7, h⟩⟩
+    rcases hsize with ⟨h1, h2, h3⟩ | ⟨h1, h2, h3⟩
+    · simp only [sizeOk, h1, ↓reduceIte, Bool.or_eq_false_iff, beq_eq_false_iff_ne,
+        ne_eq, Bool.and_eq_false_imp, beq_iff_eq]
+      exact ⟨h2, fun h7 h => h3 ⟨h7, h⟩⟩
+    · simp only [sizeOk, h1, Bool.false_eq_true, ↓reduceIte, Bool.or_eq_false_iff,
+        beq_eq_false_iff_ne, ne_eq, decide_eq_false_iff_not]
+      exact ⟨h2, by omega⟩
   have he : appendRequestBlock asm i.req b = .error .badRequest :=
     append_badRequest_iff.mpr ⟨hc, hs⟩
   have hf := feed_append_error (T := T) (now := i.now) hb h0 hl he
   have hf2 : (feedAndTake T i.now (spoolAt T st i) i.req).2 = .badRequest := by rw [hf]; rfl
   rw [step_badRequest ha hf2, hf]
   exact ⟨rfl, rfl, accessed_items _ _ _ _, rfl⟩
+
+/-- the size check used by `Accepted` and `Assembly`, spelled out: it passes exactly when the
+length does not contradict the block size in the sense of `C06_size_contradiction_4_00` -/
+theorem C06_size_check_meaning (b : Blk) (len : Nat) :
+    sizeOk b len = true ↔
+      (b.more = true → len = b.size ∨ (b.szx = 7 ∧ len % b.size = 0)) ∧
+      (b.more = false → b.szx = 7 ∨ len ≤ b.size) := by
+  cases hm : b.more <;> simp [sizeOk, hm]
 
 /-- **C06 (nothing else is let through).** The case analysis is complete: a Block1 block that is
 not `Accepted` — whatever the reason — is answered 4.08 or 4.00, does not reach the handler, and
@@ -123,33 +138,36 @@ theorem C06_not_accepted_is_refused (T : Nat) (st : RState) (i : In) (b : Blk)
 
 /-- **C06 (final block).** An accepted block without the more flag reaches the second stage as
 the stored request with the block's payload appended (its own payload for block 0), under the
-same block key when the stored request was filed under its own key. -/
+same block key when the stored request was filed under its own key; nothing stays in the spool
+under that block key (the transfer has ended). -/
 theorem C06_accepted_final_passes (T : Nat) (st : RState) (i : In) (b : Blk)
     (ha : i.assemble = true) (hb : i.req.block1 = some b) (hm : b.more = false)
     (hacc : Accepted T st i b) :
     ∃ m, Passes T st i m ∧ m.block1 = some b ∧
+      alookup (blockKey i.req) (step T st i).1.spool.items = none ∧
       ((b.num = 0 ∧ m = i.req) ∨
        (b.num ≠ 0 ∧ ∃ old, alookup (blockKey i.req) (spoolAt T st i).items = some old ∧
           m.payload = old.payload ++ i.req.payload ∧ blockKey m = blockKey old)) := by
   by_cases h0 : b.num = 0
-  · refine ⟨i.req, ⟨ha, ?_⟩, hb, Or.inl ⟨h0, rfl⟩⟩
-    rw [feed_first hb h0]; simp [hm]
+  · have hp : Passes T st i i.req := ⟨ha, by rw [feed_first hb h0]; simp [hm]⟩
+    exact ⟨i.req, hp, hb, passes_block1_absent hp hb, Or.inl ⟨h0, rfl⟩⟩
   · rcases hacc with h | ⟨old, hl, hc, hs, hst⟩
     · exact absurd h h0
     · obtain ⟨self', hok⟩ : ∃ s, appendRequestBlock old i.req b = .ok s :=
         ⟨_, append_ok_iff.mpr ⟨hc, hs, hst, rfl⟩⟩
       obtain ⟨_, _, _, e⟩ := append_ok_iff.mp hok
-      refine ⟨self', ⟨ha, ?_⟩, by rw [e], Or.inr ⟨h0, old, hl, by rw [e], blockKey_append hok⟩⟩
-      rw [feed_append_ok hb h0 hl hok]; simp [hm]
+      have hp : Passes T st i self' := ⟨ha, by rw [feed_append_ok hb h0 hl hok]; simp [hm]⟩
+      exact ⟨self', hp, by rw [e], passes_block1_absent hp hb,
+        Or.inr ⟨h0, old, hl, by rw [e], blockKey_append hok⟩⟩
 
 /-- **C06 (no 5.xx from the machinery).** Whatever the state and the request, the block-wise
-machinery never answers 5.xx by itself: a response code ≥ 5.00 is the code of a rendering the
-handler returned — for the complete request it is invoked with in this step, or of the kept
-rendering a later block is cut from (in particular the `KeyError` branch of `feed_and_take` is
-unreachable, and gaps/overlaps do not surface as 5.00). -/
+machinery never answers 5.xx by itself: a response code ≥ 5.00 is the code of what the handler
+returned or raised (`Outcome.code`) — for the complete request it is invoked with in this step —
+or the code of the kept rendering a later block is cut from (in particular the `KeyError` branch of
+`feed_and_take` is unreachable, and gaps/overlaps do not surface as 5.00). -/
 theorem C06_no_5xx_of_its_own (T : Nat) (st : RState) (i : In)
     (h5 : INTERNAL_SERVER_ERROR ≤ (step T st i).2.resp.code) :
-    (∃ m, (step T st i).2.seen = some m ∧ (step T st i).2.resp.code = (i.render m).code) ∨
+    (∃ m, (step T st i).2.seen = some m ∧ (step T st i).2.resp.code = Outcome.code (i.render m)) ∨
     (∃ k a, alookup k (cacheAt T st i).items = some a ∧ (step T st i).2.resp.code = a.code) := by
   by_cases ha : i.assemble = true
   · have hk := feed_ne_keyError T i.now (spoolAt T st i) i.req
@@ -166,24 +184,25 @@ theorem C06_no_5xx_of_its_own (T : Nat) (st : RState) (i : In)
       rw [step_pass hp] at h5 ⊢
       simp only at h5 ⊢
       by_cases hfr : isFresh m = true
-      · rw [extract_fresh hfr] at h5 ⊢
-        left
-        refine ⟨m, ?_, ?_⟩
-        · split <;> rfl
-        · split at h5
-          · rename_i hch
-            simp only [hch, ↓reduceIte] at h5 ⊢
-            rcases sliceOf_cases (i.render m) m with e | ⟨r, e, hc, _⟩
-            · rw [e] at h5; simp [respondExtract, errResp, BAD_REQUEST, INTERNAL_SERVER_ERROR] at h5
-            · rw [e]; simpa [respondExtract] using hc
-          · rename_i hch
-            simp [hch, respondExtract]
+      · left
+        cases hr : i.render m with
+        | error code =>
+          rw [extract_fresh_raised hfr hr]
+          exact ⟨m, rfl, by simp [respondExtract, errResp, Outcome.code, hr]⟩
+        | ok a =>
+          rw [extract_fresh hfr hr] at h5 ⊢
+          refine ⟨m, ?_, ?_⟩
+          · split <;> rfl
+          · split at h5
+            · rename_i hch
+              simp only [hch, ↓reduceIte] at h5 ⊢
+              rcases sliceOf_cases a m with e | ⟨r, e, hc, _⟩
+              · rw [e] at h5; simp [respondExtract, errResp, BAD_REQUEST, INTERNAL_SERVER_ERROR] at h5
+              · rw [e]; simpa [respondExtract, Outcome.code, hr] using hc
+            · rename_i hch
+              simp [hch, respondExtract, Outcome.code, hr]
       · have hfr' : isFresh m = false := by simpa using hfr
-        obtain ⟨b, hb, h0⟩ : ∃ b, m.block2 = some b ∧ b.num ≠ 0 := by
-          unfold isFresh at hfr'
-          cases hb : m.block2 with
-          | none => simp [hb] at hfr'
-          | some b => exact ⟨b, rfl, by simpa [hb] using hfr'⟩
+        obtain ⟨b, hb, h0⟩ : ∃ b, m.block2 = some b ∧ b.num ≠ 0 := later_of_not_fresh hfr'
         right
         cases hl : alookup (blockKey m) (cacheAt T st i).items with
         | none =>
@@ -197,7 +216,8 @@ theorem C06_no_5xx_of_its_own (T : Nat) (st : RState) (i : In)
           · simp only [e, respondExtract]; exact hc
   · have ha' : i.assemble = false := by simpa using ha
     rw [step_no_assembly ha']
-    exact Or.inl ⟨i.req, rfl, rfl⟩
+    refine Or.inl ⟨i.req, rfl, ?_⟩
+    cases i.render i.req <;> rfl
 
 -- Block2: slices ------------------------------------------------------------------------------------
 
@@ -244,18 +264,27 @@ theorem C06_block_geometry (num szx mps : Nat) :
 no cutting is answered with the complete rendering (Block1 echoing the request's), the handler
 having been invoked once with `m`; the rendering is not kept, and a rendering kept before under
 this key is dropped. -/
-theorem C06_complete_when_fits (T : Nat) (st : RState) (i : In) (m : Msg)
-    (hp : Passes T st i m) (hf : isFresh m = true)
-    (hfit : needsChunking m (i.render m).payload.length = false) :
-    (step T st i).2.resp = { i.render m with block1 := m.block1 } ∧
+theorem C06_complete_when_fits (T : Nat) (st : RState) (i : In) (m : Msg) (a : Resp)
+    (hp : Passes T st i m) (hf : isFresh m = true) (hr : i.render m = .ok a)
+    (hfit : needsChunking m a.payload.length = false) :
+    (step T st i).2.resp = { a with block1 := m.block1 } ∧
     (step T st i).2.seen = some m ∧
     alookup (blockKey m) (step T st i).1.cache.items = none := by
-  rw [step_pass hp, extract_fresh hf]
+  rw [step_pass hp, extract_fresh hf hr]
   simp only [hfit, Bool.false_eq_true, ↓reduceIte, respondExtract, true_and]
-  unfold delIf TD.del
-  cases hl : alookup (blockKey m) (cacheAt T st i).items with
-  | none => simpa using hl
-  | some v => simpa using alookup_aerase_self _ _
+  exact delIf_lookup_self _ _
+
+/-- **C06 (a raising handler leaves no rendering).** A request for the beginning on which the
+handler raises is answered with the code the exception is rendered with (no block options); the
+handler was invoked once with `m`; and nothing stays kept under the block key — in particular not
+the rendering made for an *earlier* request for the beginning. -/
+theorem C06_handler_error_drops_rendering (T : Nat) (st : RState) (i : In) (m : Msg) (code : Nat)
+    (hp : Passes T st i m) (hf : isFresh m = true) (hr : i.render m = .error code) :
+    (step T st i).2.resp = errResp code none ∧
+    (step T st i).2.seen = some m ∧
+    alookup (blockKey m) (step T st i).1.cache.items = none := by
+  rw [step_pass hp, extract_fresh_raised hf hr]
+  exact ⟨rfl, rfl, delIf_lookup_self _ _⟩
 
 /-- **C06 (beyond the end → 4.00).** If the governing block starts at or beyond the end of the
 representation the request is answered from, the answer is 4.00 Bad Request, for a fresh
@@ -310,7 +339,8 @@ is a list `blocks` of requests that
 * is a subsequence of the requests received so far, in order of receipt, ending with `cur`'s,
 * consists of Block1 requests that all have the block key of `cur` (same endpoint key, same method,
   same cache-key options), the first with block number 0, each later one with a payload matching
-  its size and starting exactly where the previous ones end (`Assembly`),
+  its size — final block included — and starting exactly where the previous ones end (`Assembly`),
+* has the more flag on every block but the last (`cur`'s): the body was not completed before,
 and `m` carries that block key and the concatenation of their payloads as its body. -/
 theorem C06_handler_sees_concatenation (T : Nat) (pre : List In) (cur : In) (m : Msg)
     (ha : cur.assemble = true)
@@ -318,7 +348,8 @@ theorem C06_handler_sees_concatenation (T : Nat) (pre : List In) (cur : In) (m :
     (cur.req.block1 = none ∧ m = cur.req) ∨
     (blockKey m = blockKey cur.req ∧
      ∃ blocks, Assembly (blockKey cur.req) blocks m.payload ∧
-       blocks.Sublist (received (pre ++ [cur])) ∧ blocks.getLast? = some cur.req) := by
+       blocks.Sublist (received (pre ++ [cur])) ∧ blocks.getLast? = some cur.req ∧
+       AllMore blocks.dropLast) := by
   have hinv : SpoolInv (received pre) (stateAfter T RState.init pre).spool := by
     simpa using stateAfter_spoolInv (T := T) pre (st := RState.init) (h0 := []) (spoolInv_empty [])
   have hadv : SpoolInv (received pre) (spoolAt T (stateAfter T RState.init pre) cur) :=
@@ -328,6 +359,88 @@ theorem C06_handler_sees_concatenation (T : Nat) (pre : List In) (cur : In) (m :
     simp [received, ha]
   rw [hr]
   exact (feed_spoolInv (T := T) (now := cur.now) cur.req hadv).2 m hf
+
+/-- **C06 (a delivered assembly is gone).** Whatever the state: when a request carrying Block1
+comes out of the first stage (an accepted final block — the only way a reassembled body can reach
+the handler), nothing is left in the spool under its block key. -/
+theorem C06_delivered_assembly_is_gone (T : Nat) (st : RState) (i : In) (m : Msg) (b : Blk)
+    (hp : Passes T st i m) (hb : i.req.block1 = some b) :
+    b.more = false ∧ alookup (blockKey i.req) (step T st i).1.spool.items = none := by
+  refine ⟨?_, passes_block1_absent hp hb⟩
+  cases hm : b.more with
+  | false => rfl
+  | true =>
+    exfalso
+    obtain ⟨_, hf⟩ := hp
+    rcases feed_cases T i.now (spoolAt T st i) i.req b hb with ⟨_, e⟩ | ⟨_, _, e⟩ |
+        ⟨_, self, er, _, _, e⟩ | ⟨_, self, self', _, _, e⟩
+    · rw [e] at hf; simp [hm] at hf
+    · rw [e] at hf; simp at hf
+    · rw [e] at hf; cases er <;> simp [feedOfErr] at hf
+    · rw [e] at hf; simp [hm] at hf
+
+/-- **C06 (a continuation after completion → 4.08).** In every time-ordered history from the empty
+state: after a Block1 transfer was completed at step `cur` (its final block accepted, the body
+passed on as `m`), and whatever requests under *other* block keys follow, at any time, a
+continuation (`num ≠ 0`: the next block, the one after, the final block repeated, …) under that
+block key is answered 4.08 and does not reach the handler: the handler sees each completed body
+once. -/
+theorem C06_continuation_after_completion_4_08 (T : Nat) (pre : List In) (cur : In) (m : Msg) (b : Blk)
+    (rest : List In) (nxt : In) (b' : Blk)
+    (hord : TimeOrdered 0 (pre ++ cur :: rest))
+    (hp : Passes T (stateAfter T RState.init pre) cur m) (hb : cur.req.block1 = some b)
+    (hne : ∀ i ∈ rest, i.assemble = true → blockKey i.req ≠ blockKey cur.req)
+    (ha' : nxt.assemble = true) (hk : blockKey nxt.req = blockKey cur.req)
+    (hb' : nxt.req.block1 = some b') (h0 : b'.num ≠ 0) :
+    (step T (stateAfter T RState.init (pre ++ cur :: rest)) nxt).2.resp
+      = errResp REQUEST_ENTITY_INCOMPLETE none ∧
+    (step T (stateAfter T RState.init (pre ++ cur :: rest)) nxt).2.seen = none := by
+  obtain ⟨o1, o2, o3, o4⟩ := timeOrdered_append hord
+  have hr : RInv T cur.now (stateAfter T RState.init pre) :=
+    stateAfter_rinv pre (rinv_init T 0) o1 cur.now o2 (Nat.zero_le _)
+  have hst : stateAfter T RState.init (pre ++ cur :: rest) =
+      stateAfter T (step T (stateAfter T RState.init pre) cur).1 rest := by
+    rw [stateAfter_append]; rfl
+  have hgone := spool_absent_aux (T := T) (k := blockKey cur.req) rest
+    (step_rinv hr cur (Nat.le_refl _)) (passes_block1_absent hp hb) o4 hne nxt.now
+  have := C06_bad_continuation_4_08 T (stateAfter T RState.init (pre ++ cur :: rest)) nxt b' ha' hb' h0
+    (Or.inl (by rw [hk, hst]; exact hgone))
+  exact ⟨this.1, this.2.1⟩
+
+/-- **C06 (no block is delivered twice).** In every history from the empty state: if a Block1
+transfer was completed at step `prev` (final block accepted, body passed on), then a body the
+handler is invoked with at a later step `cur` under the same block key is made only of blocks
+received *after* `prev` — `blocks` is a subsequence of the requests received since, ending with
+`cur`'s.  Together with `C06_handler_sees_concatenation`: every completed body is handed to the
+handler once, and a new body needs a new block 0. -/
+theorem C06_no_block_delivered_twice (T : Nat) (pre : List In) (prev : In) (mp : Msg) (bp : Blk)
+    (mid : List In) (cur : In) (m : Msg) (b : Blk)
+    (hpp : Passes T (stateAfter T RState.init pre) prev mp) (hbp : prev.req.block1 = some bp)
+    (hk : blockKey cur.req = blockKey prev.req)
+    (ha : cur.assemble = true) (hb : cur.req.block1 = some b)
+    (hseen : (step T (stateAfter T RState.init (pre ++ prev :: mid)) cur).2.seen = some m) :
+    blockKey m = blockKey cur.req ∧
+    ∃ blocks, Assembly (blockKey cur.req) blocks m.payload ∧
+      blocks.Sublist (received (mid ++ [cur])) ∧ blocks.getLast? = some cur.req ∧
+      AllMore blocks.dropLast := by
+  have hst : stateAfter T RState.init (pre ++ prev :: mid) =
+      stateAfter T (step T (stateAfter T RState.init pre) prev).1 mid := by
+    rw [stateAfter_append]; rfl
+  have h0 : KeyInv (blockKey cur.req) [] (step T (stateAfter T RState.init pre) prev).1.spool := by
+    rw [hk]; exact keyInv_absent (passes_block1_absent hpp hbp) []
+  have hinv : KeyInv (blockKey cur.req) (received mid)
+      (stateAfter T RState.init (pre ++ prev :: mid)).spool := by
+    rw [hst]; simpa using stateAfter_keyInv (T := T) mid h0
+  have hadv : KeyInv (blockKey cur.req) (received mid)
+      (spoolAt T (stateAfter T RState.init (pre ++ prev :: mid)) cur) :=
+    hinv.of_lookup (fun v hl => advance_lookup_some hl)
+  obtain ⟨⟨_, hf⟩, _⟩ := seen_passes ha hseen
+  have hr : received (mid ++ [cur]) = received mid ++ [cur.req] := by
+    simp [received, ha]
+  rw [hr]
+  rcases (feed_keyInv_self (T := T) (now := cur.now) cur.req hadv).2 m hf with ⟨e, _⟩ | ⟨e, _, r⟩
+  · rw [hb] at e; cases e
+  · exact ⟨e, r⟩
 
 /-- what an `Assembly` is, spelled out: the body is the flattened list of the payloads, every
 block carries Block1 and the one block key, the list is not empty and starts with block 0 -/
@@ -343,14 +456,15 @@ theorem C06_assembly_meaning (k : Key) (blocks : List Msg) (body : Bytes)
 /-- **C06 (later blocks come from the latest rendering).** In every history from the empty state,
 a request that reaches the second stage asking for a later block (`num ≠ 0`) never invokes the
 handler, and is either answered 4.08 or answered from a representation `a` (in the sense of
-`C06_block2_is_slice` / `C06_beyond_end_4_00`) that is the *latest* rendering the handler made for
-this block key — the single rendering made for the latest request for the beginning under that
-key (`renderLog` lists the renderings of all steps in order). -/
+`C06_block2_is_slice` / `C06_beyond_end_4_00`) that is what the *latest* handler invocation for this
+block key returned — the single rendering made for the latest request for the beginning under that
+key (`renderLog` lists the outcomes of all handler invocations in order, exceptions included: when
+the latest invocation raised, there is no such `a`). -/
 theorem C06_later_block_from_latest_rendering (T : Nat) (pre : List In) (cur : In) (m : Msg) (b : Blk)
     (hp : Passes T (stateAfter T RState.init pre) cur m) (hb : m.block2 = some b) (h0 : b.num ≠ 0) :
     (step T (stateAfter T RState.init pre) cur).2.seen = none ∧
     ((step T (stateAfter T RState.init pre) cur).2.resp = errResp REQUEST_ENTITY_INCOMPLETE none ∨
-     ∃ a, latest (blockKey m) (renderLog T RState.init pre) = some a ∧
+     ∃ a, latest (blockKey m) (renderLog T RState.init pre) = some (.ok a) ∧
           Source T (stateAfter T RState.init pre) cur m a) := by
   refine ⟨(C06_later_block_never_renders T _ cur m b hp hb h0).1, ?_⟩
   have hinv : CacheInv (renderLog T RState.init pre) (stateAfter T RState.init pre).cache := by
@@ -360,20 +474,63 @@ theorem C06_later_block_from_latest_rendering (T : Nat) (pre : List In) (cur : I
   | some a =>
     refine Or.inr ⟨a, hinv _ _ (advance_lookup_some hl), Or.inr ⟨isFresh_later hb h0, hl⟩⟩
 
-/-- … and when the handler never made a rendering for that block key, or the latest one was
-complete in one response (it is then not kept, see `C06_complete_when_fits`), the answer is 4.08 -/
+/-- … and when the latest request for the beginning under that block key produced no rendering —
+the handler was never invoked for the key, or its latest invocation raised — or the latest
+rendering was complete in one response (it is then not kept, see `C06_complete_when_fits`), the
+answer is 4.08 -/
 theorem C06_no_rendering_made_4_08 (T : Nat) (pre : List In) (cur : In) (m : Msg) (b : Blk)
     (hp : Passes T (stateAfter T RState.init pre) cur m) (hb : m.block2 = some b) (h0 : b.num ≠ 0)
-    (hnone : latest (blockKey m) (renderLog T RState.init pre) = none) :
+    (hnone : ∀ a, latest (blockKey m) (renderLog T RState.init pre) ≠ some (.ok a)) :
     (step T (stateAfter T RState.init pre) cur).2.resp = errResp REQUEST_ENTITY_INCOMPLETE none := by
   rcases (C06_later_block_from_latest_rendering T pre cur m b hp hb h0).2 with h | ⟨a, ha, _⟩
   · exact h
-  · rw [hnone] at ha; cases ha
+  · exact absurd ha (hnone a)
+
+/-- **C06 (after a raising handler, later blocks get 4.08).** In every time-ordered history from
+the empty state: once a request for the beginning under a block key was answered with an error
+because the handler raised (step `err`: exception rendered with `code`) — whatever rendering was
+kept under that key before — and whatever requests under other block keys follow, a request for a
+later block under that key is answered 4.08 and does not reach the handler: never bytes of a
+rendering made for an older request for the beginning. -/
+theorem C06_after_handler_error_4_08 (T : Nat) (pre : List In) (err : In) (me : Msg) (code : Nat)
+    (rest : List In) (cur : In) (m : Msg) (b : Blk)
+    (hord : TimeOrdered 0 (pre ++ err :: rest))
+    (hpe : Passes T (stateAfter T RState.init pre) err me) (hfe : isFresh me = true)
+    (hre : err.render me = .error code)
+    (hne : ∀ i ∈ rest, i.assemble = true → blockKey i.req ≠ blockKey me)
+    (hp : Passes T (stateAfter T RState.init (pre ++ err :: rest)) cur m)
+    (hk : blockKey m = blockKey me) (hb : m.block2 = some b) (h0 : b.num ≠ 0) :
+    (step T (stateAfter T RState.init pre) err).2.resp = errResp code none ∧
+    (step T (stateAfter T RState.init (pre ++ err :: rest)) cur).2.resp
+      = errResp REQUEST_ENTITY_INCOMPLETE none ∧
+    (step T (stateAfter T RState.init (pre ++ err :: rest)) cur).2.seen = none := by
+  have herr := C06_handler_error_drops_rendering T _ err me code hpe hfe hre
+  obtain ⟨o1, o2, o3, o4⟩ := timeOrdered_append hord
+  have hr : RInv T err.now (stateAfter T RState.init pre) :=
+    stateAfter_rinv pre (rinv_init T 0) o1 err.now o2 (Nat.zero_le _)
+  have hst : stateAfter T RState.init (pre ++ err :: rest) =
+      stateAfter T (step T (stateAfter T RState.init pre) err).1 rest := by
+    rw [stateAfter_append]; rfl
+  have hgone := cache_absent_aux (T := T) (k := blockKey me) rest
+    (step_rinv hr err (Nat.le_refl _)) herr.2.2 o4 hne cur.now
+  have := C06_no_rendering_4_08 T (stateAfter T RState.init (pre ++ err :: rest)) cur m b hp hb h0
+    (by rw [hk, hst]; exact hgone)
+  exact ⟨herr.1, this.1, this.2.1⟩
+
+/-- … which, in terms of the log of handler outcomes, is the case "the latest invocation for the
+key raised" of `C06_no_rendering_made_4_08` -/
+theorem C06_latest_outcome_error_4_08 (T : Nat) (pre : List In) (cur : In) (m : Msg) (b : Blk)
+    (code : Nat)
+    (hp : Passes T (stateAfter T RState.init pre) cur m) (hb : m.block2 = some b) (h0 : b.num ≠ 0)
+    (herr : latest (blockKey m) (renderLog T RState.init pre) = some (.error code)) :
+    (step T (stateAfter T RState.init pre) cur).2.resp = errResp REQUEST_ENTITY_INCOMPLETE none :=
+  C06_no_rendering_made_4_08 T pre cur m b hp hb h0 (fun a ha => by rw [herr] at ha; cases ha)
 
 /-- the rendering log, spelled out: a step of the machinery that invokes the handler with `m`
-appends `(blockKey m, rendering)`; other steps append nothing; `latest` is the last entry of a key -/
-theorem C06_renderLog_meaning (T : Nat) (st : RState) (i : In) (rest : List In) (k k' : Key) (r : Resp)
-    (log : List (Key × Resp)) :
+appends `(blockKey m, what the handler returned or raised)`; other steps append nothing; `latest`
+is the last entry of a key -/
+theorem C06_renderLog_meaning (T : Nat) (st : RState) (i : In) (rest : List In) (k k' : Key) (r : Outcome)
+    (log : List (Key × Outcome)) :
     renderLog T st (i :: rest) =
       (if i.assemble then ((step T st i).2.seen.map fun m => (blockKey m, i.render m)).toList else [])
         ++ renderLog T (step T st i).1 rest ∧
@@ -411,9 +568,10 @@ theorem C06_lifetime {κ ν : Type} [DecidableEq κ] (T : Nat) (hT : 0 < T)
 the empty state: after a Block1 block was accepted at time `t` (`cur`), and whatever requests under
 *other* block keys follow (`rest`: any endpoints, resources' worth of interleaving, any timing), the
 assembly stored under `cur`'s block key is, as the timers up to `t'` have run,
-* at every `t' < t + T` still there and unchanged (so an in-order continuation is accepted and
-  extends exactly it), and
-* at every `t' ≥ t + 2T` gone.
+* when the block had the more flag (the transfer goes on): at every `t' < t + T` still there and
+  unchanged (so an in-order continuation is accepted and extends exactly it), and
+* in any case — also after a final block, which takes the assembly out at once
+  (`C06_delivered_assembly_is_gone`) — at every `t' ≥ t + 2T` gone.
 `T` is the spool's `MAX_TRANSMIT_WAIT` timeout. -/
 theorem C06_assembly_lifetime (T : Nat) (hT : 0 < T) (pre : List In) (cur : In) (b : Blk)
     (rest : List In) (hord : TimeOrdered 0 (pre ++ cur :: rest))
@@ -421,7 +579,7 @@ theorem C06_assembly_lifetime (T : Nat) (hT : 0 < T) (pre : List In) (cur : In) 
     (hacc : Accepted T (stateAfter T RState.init pre) cur b)
     (hne : ∀ i ∈ rest, i.assemble = true → blockKey i.req ≠ blockKey cur.req)
     (t' : Nat) (hle : ∀ i ∈ rest, i.now ≤ t') (ht' : cur.now ≤ t') :
-    (t' < cur.now + T →
+    (b.more = true → t' < cur.now + T →
       ∃ asm, alookup (blockKey cur.req)
                (step T (stateAfter T RState.init pre) cur).1.spool.items = some asm ∧
              alookup (blockKey cur.req)
@@ -432,33 +590,39 @@ theorem C06_assembly_lifetime (T : Nat) (hT : 0 < T) (pre : List In) (cur : In) 
   obtain ⟨o1, o2, o3, o4⟩ := timeOrdered_append hord
   have hr : RInv T cur.now (stateAfter T RState.init pre) :=
     stateAfter_rinv pre (rinv_init T 0) o1 cur.now o2 (Nat.zero_le _)
-  obtain ⟨D, asm, h1, h2, hinv, hl⟩ := accepted_linv hT hr cur (Nat.le_refl _) ha hb hacc
   have hst : stateAfter T RState.init (pre ++ cur :: rest) =
       stateAfter T (step T (stateAfter T RState.init pre) cur).1 rest := by
     rw [stateAfter_append]; rfl
   rw [hst]
-  obtain ⟨p1, p2⟩ := spool_lifetime_aux rest hinv o4 hne t' hle ht'
-  constructor
-  · intro hlt
-    have hp := p1 (by omega)
-    simp only [TD.present] at hp
-    cases hv : alookup (blockKey cur.req)
-        ((stateAfter T (step T (stateAfter T RState.init pre) cur).1 rest).spool.advance T t').items with
-    | none => rw [hv] at hp; cases hp
-    | some v =>
-      have hback := (lookup_back (T := T) (k := blockKey cur.req) rest
-        (step_rinv hr cur (Nat.le_refl _)) o4 hne t').1 v hv
-      rw [hl] at hback
-      simp only [Option.some.injEq] at hback
-      subst hback
-      exact ⟨asm, hl, rfl⟩
-  · intro hge
-    have hp := p2 (by omega)
-    simp only [TD.present] at hp
-    cases hv : alookup (blockKey cur.req)
-        ((stateAfter T (step T (stateAfter T RState.init pre) cur).1 rest).spool.advance T t').items with
-    | none => rfl
-    | some v => rw [hv] at hp; cases hp
+  cases hm : b.more with
+  | false =>
+    refine ⟨fun h => (by cases h), fun _ => ?_⟩
+    obtain ⟨m, hp, _, hgone, _⟩ := C06_accepted_final_passes T _ cur b ha hb hm hacc
+    exact spool_absent_aux (T := T) rest (step_rinv hr cur (Nat.le_refl _)) hgone o4 hne t'
+  | true =>
+    obtain ⟨D, asm, h1, h2, hinv, hl⟩ := accepted_linv hT hr cur (Nat.le_refl _) ha hb hm hacc
+    obtain ⟨p1, p2⟩ := spool_lifetime_aux rest hinv o4 hne t' hle ht'
+    constructor
+    · intro _ hlt
+      have hp := p1 (by omega)
+      simp only [TD.present] at hp
+      cases hv : alookup (blockKey cur.req)
+          ((stateAfter T (step T (stateAfter T RState.init pre) cur).1 rest).spool.advance T t').items with
+      | none => rw [hv] at hp; cases hp
+      | some v =>
+        have hback := (lookup_back (T := T) (k := blockKey cur.req) rest
+          (step_rinv hr cur (Nat.le_refl _)) o4 hne t').1 v hv
+        rw [hl] at hback
+        simp only [Option.some.injEq] at hback
+        subst hback
+        exact ⟨asm, hl, rfl⟩
+    · intro hge
+      have hp := p2 (by omega)
+      simp only [TD.present] at hp
+      cases hv : alookup (blockKey cur.req)
+          ((stateAfter T (step T (stateAfter T RState.init pre) cur).1 rest).spool.advance T t').items with
+      | none => rfl
+      | some v => rw [hv] at hp; cases hp
 
 /-- **C06 (expired transfer → 4.08).** … hence a continuation arriving `2T` or more after the last
 accepted block of its block key (nothing else having used that key) is answered 4.08 and does not
@@ -550,23 +714,32 @@ theorem C06_expired_rendering_4_08 (T : Nat) (hT : 0 < T) (pre : List In) (cur :
     (by rw [hk]; exact hgone)
   exact ⟨this.1, this.2.1⟩
 
-/-- **C06 (refinement step: per key, the blocks so far).** An accepted block leaves under its
-block key exactly: its own payload if its number is 0 (an earlier assembly of that key is silently
-discarded — restart), the stored body extended by its payload otherwise. -/
+/-- **C06 (refinement step: per key, the blocks so far).** An accepted block with the more flag
+leaves under its block key exactly: its own payload if its number is 0 (an earlier assembly of that
+key is silently discarded — restart), the stored body extended by its payload otherwise.  An
+accepted block without the more flag passes exactly that body on to the second stage and leaves
+nothing under the key. -/
 theorem C06_accepted_block_extends_assembly (T : Nat) (st : RState) (cur : In) (b : Blk)
     (ha : cur.assemble = true) (hb : cur.req.block1 = some b) (hacc : Accepted T st cur b) :
-    ∃ asm, alookup (blockKey cur.req) (step T st cur).1.spool.items = some asm ∧
+    ∃ asm, (if b.more then alookup (blockKey cur.req) (step T st cur).1.spool.items = some asm
+            else Passes T st cur asm ∧
+                 alookup (blockKey cur.req) (step T st cur).1.spool.items = none) ∧
       ((b.num = 0 ∧ asm.payload = cur.req.payload) ∨
        (b.num ≠ 0 ∧ ∃ old, alookup (blockKey cur.req) (spoolAt T st cur).items = some old ∧
           asm.payload = old.payload ++ cur.req.payload)) := by
-  obtain ⟨asm, prev, hprev, hpay, hform⟩ := accepted_spool hb hacc
-  refine ⟨asm, ?_, ?_⟩
-  · rw [step_spool_eq]
-    simp only [ha, ↓reduceIte]
-    have hbase : alookup (blockKey cur.req)
-        (if b.num = 0 then (spoolAt T st cur).set T cur.now (blockKey cur.req) asm
-         else ((spoolAt T st cur).accessed T cur.now (blockKey cur.req)).mutate (blockKey cur.req) asm).items
-        = some asm := by
+  cases hm : b.more with
+  | false =>
+    obtain ⟨m, hp, _, hgone, hform⟩ := C06_accepted_final_passes T st cur b ha hb hm hacc
+    refine ⟨m, by simpa using ⟨hp, hgone⟩, ?_⟩
+    rcases hform with ⟨h0, e⟩ | ⟨h0, old, hl, hpay, _⟩
+    · exact Or.inl ⟨h0, by rw [e]⟩
+    · exact Or.inr ⟨h0, old, hl, hpay⟩
+  | true =>
+    obtain ⟨asm, prev, hprev, hpay, hform⟩ := accepted_spool hb hm hacc
+    refine ⟨asm, ?_, ?_⟩
+    · simp only [↓reduceIte]
+      rw [step_spool_eq]
+      simp only [ha, ↓reduceIte, hform]
       by_cases h0 : b.num = 0
       · simp [h0, TD.set, accessed_items, alookup_ainsert_self]
       · rcases hprev with ⟨e, _⟩ | ⟨_, old, hl, _⟩
@@ -575,12 +748,9 @@ theorem C06_accepted_block_extends_assembly (T : Nat) (st : RState) (cur : In) (
               ((spoolAt T st cur).accessed T cur.now (blockKey cur.req)).items = some old := by
             rw [accessed_items]; exact hl
           simp [h0, TD.mutate, hl', alookup_ainsert_self]
-    rcases hform with e | e
-    · rw [e]; exact hbase
-    · rw [e, accessed_items]; exact hbase
-  · rcases hprev with ⟨h0, e⟩ | ⟨h0, old, hl, e⟩
-    · exact Or.inl ⟨h0, by rw [hpay, e]; rfl⟩
-    · exact Or.inr ⟨h0, old, hl, by rw [hpay, e]⟩
+    · rcases hprev with ⟨h0, e⟩ | ⟨h0, old, hl, e⟩
+      · exact Or.inl ⟨h0, by rw [hpay, e]; rfl⟩
+      · exact Or.inr ⟨h0, old, hl, by rw [hpay, e]⟩
 
 -- non-vacuity and sanity ---------------------------------------------------------------------------
 
@@ -588,11 +758,12 @@ section examples
 
 private def epA : Remote := { key := 1, maxPayload := 1124, maxSzx := 6 }
 private def epB : Remote := { key := 2, maxPayload := 1124, maxSzx := 6 }
-private def ok (body : Bytes) : Msg → Resp :=
-  fun _ => { code := 69, opts := [(12, [42])], block1 := none, block2 := none, payload := body }
+private def ok (body : Bytes) : Msg → Outcome :=
+  fun _ => .ok { code := 69, opts := [(12, [42])], block1 := none, block2 := none, payload := body }
+private def raises (code : Nat) : Msg → Outcome := fun _ => .error code
 private def put (r : Remote) (b1 : Option Blk) (b2 : Option Blk) (pl : Bytes) : Msg :=
   { remote := r, code := 3, opts := [(11, [97])], block1 := b1, block2 := b2, payload := pl }
-private def rq (now : Nat) (m : Msg) (h : Msg → Resp) : In :=
+private def rq (now : Nat) (m : Msg) (h : Msg → Outcome) : In :=
   { now := now, assemble := true, req := m, render := h }
 
 /-- two endpoints interleaved on one resource: A uploads 16+3 bytes, B's upload has a gap;
@@ -627,8 +798,35 @@ example : (run 10 RState.init exampleHistory).map
 example : ((run 10 RState.init exampleHistory)[5]?).map (·.resp.payload) =
     some [32, 33, 34, 35, 36, 37, 38, 39] := by decide
 
-/-- hypotheses of the theorems are met by this history: accepted blocks, a refused continuation
-with an existing assembly, a request passing to the second stage, a kept rendering as `Source` -/
+/-- final blocks and raising handlers: A's final block of 17 bytes at 16-byte size is refused with
+4.00, a 16-byte one completes the upload (32 bytes reach the handler), the next block and the
+repeated final block get 4.08; A's rendering of 40 bytes is kept, a newer request for the
+beginning makes the handler raise 4.04, and block 1 is then answered 4.08 (not bytes 16..31) -/
+private def exampleHistory2 : List In :=
+  [ rq 0 (put epA (some ⟨0, true, 0⟩) none (List.replicate 16 65)) (ok []),
+    rq 1 (put epA (some ⟨1, false, 0⟩) none (List.replicate 17 65)) (ok []),
+    rq 2 (put epA (some ⟨1, false, 0⟩) none (List.replicate 16 65)) (ok []),
+    rq 3 (put epA (some ⟨2, false, 0⟩) none [1]) (ok []),
+    rq 4 (put epA (some ⟨1, false, 0⟩) none (List.replicate 16 65)) (ok []),
+    rq 5 (put epA none (some ⟨0, false, 0⟩) []) (ok (List.range 40)),
+    rq 6 (put epA none (some ⟨0, false, 0⟩) []) (raises 132),
+    rq 7 (put epA none (some ⟨1, false, 0⟩) []) (ok [9]) ]
+
+example : (run 10 RState.init exampleHistory2).map
+      (fun o => (o.resp.code, o.resp.block1, o.resp.block2, o.resp.payload.length,
+                 o.seen.map (·.payload.length))) =
+    [ (95, some ⟨0, true, 0⟩, none, 0, none),
+      (128, none, none, 0, none),
+      (69, some ⟨1, false, 0⟩, none, 0, some 32),
+      (136, none, none, 0, none),
+      (136, none, none, 0, none),
+      (69, none, some ⟨0, true, 0⟩, 16, some 0),
+      (132, none, none, 0, some 0),
+      (136, none, none, 0, none) ] := by decide
+
+/-- hypotheses of the theorems are met by these histories: accepted blocks, a refused continuation
+with an existing assembly, a request passing to the second stage, a kept rendering as `Source`,
+an oversize final block, a completed transfer, a raising handler with an older rendering kept -/
 example : Accepted 10 RState.init (rq 0 (put epA (some ⟨0, true, 0⟩) none (List.replicate 16 65)) (ok []))
     ⟨0, true, 0⟩ := Or.inl rfl
 example : ∃ asm, alookup (blockKey (put epA none none []))
@@ -636,13 +834,39 @@ example : ∃ asm, alookup (blockKey (put epA none none []))
       = some asm ∧ isRequestCode asm.code = true ∧ (⟨1, false, 0⟩ : Blk).start = asm.payload.length :=
   ⟨put epA (some ⟨0, true, 0⟩) none (List.replicate 16 65), by decide, by decide, by decide⟩
 example : TimeOrdered 0 exampleHistory := by simp [exampleHistory, TimeOrdered, rq]
+example : TimeOrdered 0 exampleHistory2 := by simp [exampleHistory2, TimeOrdered, rq]
 example : Passes 10 (stateAfter 10 RState.init (exampleHistory.take 5)) (exampleHistory[5]'(by decide))
     (put epA none (some ⟨2, false, 0⟩) []) := ⟨rfl, by decide⟩
 example : Source 10 (stateAfter 10 RState.init (exampleHistory.take 5)) (exampleHistory[5]'(by decide))
-    (put epA none (some ⟨2, false, 0⟩) []) (ok (List.range 40) (put epA none none [])) :=
+    (put epA none (some ⟨2, false, 0⟩) [])
+    { code := 69, opts := [(12, [42])], block1 := none, block2 := none, payload := List.range 40 } :=
   Or.inr ⟨by decide, by decide⟩
 example : latest (blockKey (put epA none none [])) (renderLog 10 RState.init (exampleHistory.take 5))
     = some (ok (List.range 40) (put epA none none [])) := by decide
+/-- `C06_size_contradiction_4_00`, final-block case: 17 bytes in a final block of size 16 -/
+example : ∃ asm, alookup (blockKey (put epA none none []))
+      (spoolAt 10 (stateAfter 10 RState.init (exampleHistory2.take 1)) (exampleHistory2[1]'(by decide))).items
+      = some asm ∧ isRequestCode asm.code = true ∧
+      ((⟨1, false, 0⟩ : Blk).more = false ∧ (⟨1, false, 0⟩ : Blk).szx ≠ 7 ∧
+       (⟨1, false, 0⟩ : Blk).size < (List.replicate 17 65).length) :=
+  ⟨put epA (some ⟨0, true, 0⟩) none (List.replicate 16 65), by decide, by decide, by decide⟩
+/-- `C06_continuation_after_completion_4_08` / `C06_delivered_assembly_is_gone`: the final block of
+step 2 passes as the 32-byte body -/
+example : ∃ m, Passes 10 (stateAfter 10 RState.init (exampleHistory2.take 2)) (exampleHistory2[2]'(by decide)) m
+    ∧ m.payload.length = 32 :=
+  ⟨put epA (some ⟨1, false, 0⟩) none (List.replicate 32 65), ⟨rfl, by decide⟩, by decide⟩
+/-- `C06_after_handler_error_4_08`: at step 6 a rendering is kept under the key and the handler
+raises on a request for the beginning -/
+example : Passes 10 (stateAfter 10 RState.init (exampleHistory2.take 6)) (exampleHistory2[6]'(by decide))
+      (put epA none (some ⟨0, false, 0⟩) []) ∧
+    isFresh (put epA none (some ⟨0, false, 0⟩) []) = true ∧
+    (exampleHistory2[6]'(by decide)).render (put epA none (some ⟨0, false, 0⟩) []) = .error 132 ∧
+    (alookup (blockKey (put epA none none []))
+      (cacheAt 10 (stateAfter 10 RState.init (exampleHistory2.take 6)) (exampleHistory2[6]'(by decide))).items).isSome
+      = true :=
+  ⟨⟨rfl, by decide⟩, by decide, rfl, by decide⟩
+example : latest (blockKey (put epA none none [])) (renderLog 10 RState.init (exampleHistory2.take 7))
+    = some (.error 132) := by decide
 
 /-- TimeoutDict: set at 0 with T = 10, other key accessed at 5; present at 9, absent at 20 -/
 example : ((TD.runOps 10 (TD.empty : TD Nat Nat) [(0, .set 1 7), (5, .set 2 8)]).advance 10 9).present 1
